@@ -187,9 +187,29 @@ fn gen_payload(r: &mut Rng, kind: Kind, offset_boundary: bool, side: i8) -> BigC
 
 fn big_count(tier: Tier) -> u64 {
     match tier {
-        Tier::Quick => 32,    // 2 boundaries x 3 sides x 5 kinds + 2 single samples around 2^32 bytes
-        Tier::Thorough => 242, // x 8 jitters
+        Tier::Quick => 32 + RETRY_QUICK,    // 2 boundaries x 3 sides x 5 kinds + retries + 2 single samples around 2^32 bytes
+        Tier::Thorough => 242 + RETRY_THOROUGH, // x 8 jitters
     }
+}
+
+const RETRY_QUICK: u64 = 8;
+const RETRY_THOROUGH: u64 = 32;
+
+/// More than 4 GiB of payload, a sink outage inside write_end (k-th stream call of that call: the
+/// flushes of the pending chunks, then the 64-bit size patch), and the caller's second write_end.
+fn gen_payload_retry(r: &mut Rng, k: u64) -> BigCase {
+    let kind = *r.pick(&Kind::ALL);
+    let mut c = gen_payload(r, kind, k % 2 == 1, 1);
+    let end_api = c.sc.ops.len() as u32;
+    c.sc.fault = Some((0, crate::simdisk::Fault::Err(crate::simdisk::ErrK::Other)));
+    c.sc.fault_len = if k % 5 == 4 { 2 } else { 1 };
+    c.sc.fault_api = Some((end_api, k / 2 % 12));
+    if r.chance(1, 3) {
+        c.sc.ops.push(Op::Write { track_id: 1, s: SampleW { payload: Payload::Stamp { len: 11, tag: 4242 }, duration: 1000, offset: 0, sync: true, start_time: 0 } });
+    }
+    c.sc.ops.push(Op::End);
+    c.family = "payload_retry".into();
+    c
 }
 
 /// One sample of 2^32 - 1 / 2^32 + 5 bytes (the 32-bit sample-size table has no wider form:
@@ -225,6 +245,10 @@ impl Prop for C13 {
         let nb = big_count(tier);
         if idx >= nb - 2 && idx < nb {
             return gen_huge_sample(&mut r, idx == nb - 1);
+        }
+        let nretry = if tier == Tier::Quick { RETRY_QUICK } else { RETRY_THOROUGH };
+        if idx + 2 + nretry >= nb && idx < nb {
+            return gen_payload_retry(&mut r, idx + 2 + nretry - nb);
         }
         if idx < nb {
             // structured family: boundary x side x kind (x jitter)
